@@ -327,7 +327,7 @@ func (e newTorrentEvent) apply(s *state) {
 		// asynchronously evicts the torrent, leaving the scheduler
 		// incorrectly thinking the torrent is still on disk.
 		// We fix this by removing the mem entry for the torrent.
-		s.removeTorrent(e.torrent.InfoHash(), nil)
+		s.removeTorrent(e.torrent.InfoHash(), ErrTorrentRemoved)
 		ok = false
 	}
 	if !ok {
@@ -358,9 +358,15 @@ type dispatcherCompleteEvent struct {
 func (e dispatcherCompleteEvent) apply(s *state) {
 	infoHash := e.dispatcher.InfoHash()
 
+	ctrl, ok := s.torrentControls[infoHash]
+	if ok && ctrl.dispatcher != e.dispatcher {
+		// The completed dispatcher was removed and the torrent has since been
+		// added again: the completion does not apply to the new dispatcher.
+		s.log("dispatcher", e.dispatcher).Info("Ignoring completion of replaced dispatcher")
+		return
+	}
 	s.conns.ClearBlacklist(infoHash)
 	s.announceQueue.Eject(infoHash)
-	ctrl, ok := s.torrentControls[infoHash]
 	if !ok {
 		s.log("dispatcher", e.dispatcher).Error("Completed dispatcher not found")
 		return
@@ -368,6 +374,8 @@ func (e dispatcherCompleteEvent) apply(s *state) {
 	for _, errc := range ctrl.errors {
 		errc <- nil
 	}
+	// Clients have been notified, and must not be notified again on shutdown.
+	ctrl.errors = nil
 	if ctrl.localRequest {
 		downloadTime := s.sched.clock.Now().Sub(ctrl.dispatcher.CreatedAt())
 		observability.EmitDownloadPerformance(s.sched.stats, observability.TORRENT_LEECH, ctrl.dispatcher.Length(), downloadTime)
